@@ -3,17 +3,21 @@
 
 package rawmessagesfilter
 
-import "sync"
+import (
+	"sync"
 
-var verifPanicObservers sync.Map // *RawMessageFilter -> func(interface{})
+	"github.com/orbs-network/lean-helix-go/services/interfaces"
+)
+
+var verifPanicObservers sync.Map // *RawMessageFilter -> func(interface{}, interfaces.ConsensusMessage)
 
 // VerifObserveRecoveredPanics registers an observer for panics that processConsensusMessage recovers from.
-func (f *RawMessageFilter) VerifObserveRecoveredPanics(fn func(r interface{})) {
+func (f *RawMessageFilter) VerifObserveRecoveredPanics(fn func(r interface{}, message interfaces.ConsensusMessage)) {
 	verifPanicObservers.Store(f, fn)
 }
 
-func verifRecovered(f *RawMessageFilter, r interface{}) {
+func verifRecovered(f *RawMessageFilter, r interface{}, message interfaces.ConsensusMessage) {
 	if fn, ok := verifPanicObservers.Load(f); ok {
-		fn.(func(interface{}))(r)
+		fn.(func(interface{}, interfaces.ConsensusMessage))(r, message)
 	}
 }
